@@ -1,9 +1,14 @@
 (* Correspondence glue for C20.  Input: (addr bytes, port int, excluded?).  An
    address with white space at either end is none of the address forms the property
-   speaks about: the harness flags it and both sides answer the constant (-1).
+   speaks about, and an unbracketed IPv6 literal directly followed by ":digits" (the
+   whole not being an IPv6 literal) is the property's own exception: the harness flags
+   both and both sides answer the constant (-1).
    Otherwise the output is:
    [ ensurePort(addr, port); SplitHostPort of it; SplitHostPort(addr);
-     NewClientTransport(addr); NewComponentTransport(addr); NewChecker(addr, "") ]. *)
+     NewClientTransport(addr); NewComponentTransport(addr); NewChecker(addr, "");
+     ensurePort(ensurePort(addr, port), 5222); NewClientTransport(ensurePort(addr, port)) ]
+   - the last two are the SRV path of client.go (address completed with the SRV port,
+   then handed to the constructor, which applies ensurePort again). *)
 From Coq Require Import List ZArith NArith Bool.
 From XV Require Import Lib.Sx Model.Addr.
 Import ListNotations.
@@ -45,6 +50,7 @@ Definition run_typed (inp : str * Z * bool) : sx :=
   let ep := ensure_port addr port in
   SL [SS ep; split_sx (split_host_port ep); split_sx (split_host_port addr);
       transport_sx (client_transport addr); transport_sx (component_transport addr);
-      checker_sx (checker_params addr)].
+      checker_sx (checker_params addr);
+      SS (ensure_port ep 5222); transport_sx (client_transport ep)].
 
 Definition run_C20 : sx -> sx := with_input dec_input run_typed.
